@@ -24,9 +24,14 @@ def plumbing(ctx, mergetree=True):
     """The library's own merge-history generator and attach path (helpers.py): properties stated over 'any history of adds and
     merges' are also exercised through parallel_merging / attach_shared_memory, so the schedule (every sketch merged exactly once,
     none with itself) and the rebuilding of attached views from the owner's recorded arguments are necessary conditions there."""
-    if mergetree:
-        RP.rule_mergetree(ctx)
-    RT.rule_attach_table(ctx)
+    from .model import AnalysisError
+    with ctx.soft("helpers.py is decided by C08/C16"):
+        try:
+            if mergetree:
+                RP.rule_mergetree(ctx)
+            RT.rule_attach_table(ctx)
+        except AnalysisError as e:
+            ctx.note("plumbing rules not decided here (helpers.py is decided by C08/C16): %s" % e)
 
 
 
